@@ -1,7 +1,7 @@
 /* Seeded generators: sparsity patterns, value classes, tuning tables, option vectors. */
 #include "vf.h"
 
-const char *pat_names[] = { "random", "random+diag", "band", "arrow", "blockdiag", "blocktri", "permtri", "grid", "dense", "diag", "stair" };
+const char *pat_names[] = { "random", "random+diag", "band", "arrow", "blockdiag", "blocktri", "permtri", "grid", "dense", "diag", "stair", "lowerdense" };
 const char *val_names[] = { "unif", "diagdom", "rowscaled", "colscaled", "bothscaled", "graded", "smallint", "pow2" };
 const char *colperm_names[] = { "NATURAL", "MMD_ATA", "MMD_AT_PLUS_A", "COLAMD", "METIS_AT_PLUS_A", "PARMETIS", "METIS_ATA", "ZOLTAN", "MY_PERMC" };
 
@@ -90,6 +90,11 @@ void gen_matrix(vf_rng *r, const vf_api *P, const gen_spec *g, vf_mat *A)
         for (int j = k * k; j < mn; j++) { S(j, j); S(rng_int(r, 0, m - 1), j); } } break;
     case PAT_DENSE: for (int j = 0; j < n; j++) for (int i = 0; i < m; i++) S(i, j); break;
     case PAT_DIAG: for (int j = 0; j < mn; j++) S(j, j); break;
+    case PAT_LOWERDENSE: {
+        /* dense lower triangle (long supernodes that straddle panel boundaries) + sparse upper part whose first entry per column
+           starts a U-segment somewhere inside a supernode */
+        for (int j = 0; j < n; j++) { for (int i = j; i < m; i++) S(i, j); int k = rng_int(r, 0, 2); for (int t = 0; t < k && j > 0; t++) S(rng_int(r, 0, j - 1), j); }
+        } break;
     case PAT_STAIR: { int i = 0; for (int j = 0; j < n; j++) { int h = rng_int(r, 1, 3); for (int t = 0; t < h; t++) S(i + t, j); S(j, j); if (rng_bool(r, 0.7)) i++; if (i >= m) i = m - 1; } } break;
     }
     /* forced structural holes on the diagonal */
@@ -169,8 +174,8 @@ void gen_run_opts(vf_rng *r, run_opts *o, int allow_nr)
     static const int cps[] = { NATURAL, MMD_ATA, MMD_AT_PLUS_A, COLAMD, MY_PERMC };
     o->opt.ColPerm = (colperm_t)rng_pick(r, cps, 5);
     o->my_permc = o->opt.ColPerm == MY_PERMC;
-    static const double us[] = { 1.0, 1.0, 0.5, 0.1, 0.01, 1e-3, 1e-8 };
-    o->opt.DiagPivotThresh = us[rng_int(r, 0, 6)];
+    static const double us[] = { 1.0, 1.0, 0.5, 0.1, 0.01, 1e-3, 1e-8, 0.0 };   /* documented range [0, 1] */
+    o->opt.DiagPivotThresh = us[rng_int(r, 0, 7)];
     o->opt.SymmetricMode = rng_bool(r, 0.25) ? YES : NO;
     o->opt.Equil = rng_bool(r, 0.5) ? YES : NO;
     o->opt.Trans = (trans_t)rng_int(r, 0, 2);
